@@ -218,9 +218,10 @@ const (
 	PosNullable Position = "nullable"
 	PosDef      Position = "definition"
 	PosNested   Position = "nested"
+	PosDefault  Position = "default" // optional, with a default the caller has put into the property schema
 )
 
-var AllPositions = []Position{PosRequired, PosOptional, PosNullable, PosDef, PosNested}
+var AllPositions = []Position{PosRequired, PosOptional, PosNullable, PosDef, PosNested, PosDefault}
 
 // fieldProgram wraps a property schema at the given position; mk builds the document for one value
 // (absent=true builds the document without the key).
@@ -229,7 +230,7 @@ func fieldProgram(pos Position, prop M) (schema M, mk func(v any, absent bool) a
 	switch pos {
 	case PosRequired:
 		schema = M{"type": "object", "properties": M{"v": p}, "required": []any{"v"}}
-	case PosOptional:
+	case PosOptional, PosDefault:
 		schema = M{"type": "object", "properties": M{"v": p}}
 	case PosNullable:
 		if t, ok := p["type"].(string); ok {
